@@ -238,6 +238,8 @@ def cases(tier):
         cs.append(Case("venn2_chunk8_vs4", "case_venn", {"nsorters": 2, "nsp": [1, 1], "chunk_a": 8, "chunk_b": 4}, timeout_s=3500, max_paths=500000))
         cs.append(Case("venn3_chunk4", "case_venn", {"nsorters": 3, "nsp": [2, 1, 1], "chunk_a": 4, "chunk_b": 4}, timeout_s=3500, max_paths=500000))
     # chunk sizes that are not a multiple of the time bin (2 samples)
+    # a fractional chunk size (the default is 20 * fs, fractional for the usual calibrated sampling rates such as 30000.27 Hz)
+    cs.append(Case("venn2_chunk4.5_fractional", "case_venn", {"nsorters": 2, "nsp": [1, 1], "chunk_a": 4.5, "chunk_b": 4.5}, timeout_s=3300, max_paths=500000))
     cs.append(Case("venn2_chunk5_vs3", "case_venn", {"nsorters": 2, "nsp": [1, 1], "chunk_a": 5, "chunk_b": 3}, timeout_s=3300, max_paths=500000))
     for agg in ("sum", "mean"):
         cs.append(Case(f"stack_{agg}", "case_stack", {"ntr": b["stack_ntr"], "agg": agg}))
